@@ -362,19 +362,54 @@ fn run_stream_check(opts: &Opts, prop: Prop, known: &[Known]) -> (Vec<Phase>, BT
             }
             res
         });
+        // every corruption confined to the checksum (all 2^24-1 XOR patterns) of a few frames
+        let cw_frames: Vec<sweep::CorpusFrame> = {
+            let mut v: Vec<sweep::CorpusFrame> = corpus.iter().filter(|f| f.label.starts_with("foreign:L=0,") || f.label.starts_with("foreign:L=1,") || f.label.starts_with("foreign:L=2,")).cloned().collect();
+            let mut libs: Vec<&sweep::CorpusFrame> = corpus.iter().filter(|f| f.label.starts_with("lib:")).collect();
+            libs.sort_by_key(|f| f.bytes.len());
+            let take = if thorough { 12 } else { 2 };
+            let step = (libs.len() / take).max(1);
+            for f in libs.iter().step_by(step).take(take) {
+                v.push((*f).clone());
+            }
+            v
+        };
+        let cw_evals = std::sync::atomic::AtomicU64::new(0);
+        let (st_cw, fail_cw) = par_run(cw_frames.len() as u64 * 256, opts.jobs, |i, st| {
+            let fr = &cw_frames[(i / 256) as usize];
+            let (done, bad) = sweep::checksum_window_slice(fr, (i % 256) as u8);
+            cw_evals.fetch_add(done, std::sync::atomic::Ordering::Relaxed);
+            st.oracle_evals += done;
+            st.fault_n("c04_burst", done);
+            st.probe_n("c04_hits_checksum", done);
+            if let Some(t) = bad {
+                let v = judge_stream(&t, prop, None).unwrap_or_else(|| Violation::new("C04", "C04.a", "checksum-window pattern accepted".into()));
+                return handle(v, Payload::Stream(t));
+            }
+            None
+        });
+        let cw_total = cw_evals.into_inner();
         let c = counts_m.into_inner().unwrap();
         extra = json!({
+            "checksum_window_patterns": cw_total,
+            "checksum_window_frames": cw_frames.iter().map(|f| format!("{}/{}B", f.label, f.bytes.len())).collect::<Vec<_>>(),
             "sweep_corpus_frames": corpus.len(),
             "sweep_faults": {"flip1": c.flip1, "flip2": c.flip2, "flip_odd": c.flip_odd, "burst": c.burst},
             "exhaustive_subspaces": [
                 format!("every single-bit position (reserved bits, payload, checksum) of {} corpus frames (frames up to {} bytes)", c.flip1_exhaustive_frames, plan.single_all_max_len),
                 format!("all bit pairs of {} corpus frames (frames up to {} bytes)", c.flip2_exhaustive_frames, plan.pairs_all_max_len),
                 format!("every burst span 2..=24 x every start position (all-ones interior + one random interior) of {} corpus frames (frames up to {} bytes)", c.burst_exhaustive_frames, plan.burst_all_max_len),
+                format!("every corruption confined to the 24 checksum bits (all 2^24-1 XOR patterns, i.e. every burst interior) of {} frames: {} patterns", cw_frames.len(), cw_total),
             ],
             "sampled_subspaces": ["bit pairs on longer frames (distance biased to 1,8,23,24,25,far)", "odd counts 3..=33", "burst start positions on longer frames", "burst interior patterns"],
         });
+        let mut st = st;
+        st.merge(st_cw);
         phases.push(Phase { name: "c04_fault_sweep".into(), items: corpus.len() as u64, stats: st, wall_s: t0.elapsed().as_secs_f64() });
         if let Some(f) = fail {
+            report_failure(opts, f);
+        }
+        if let Some(f) = fail_cw {
             report_failure(opts, f);
         }
     }
@@ -472,7 +507,7 @@ fn run_builder_check(opts: &Opts, known: &[Known]) -> (Vec<Phase>, BTreeMap<usiz
         Some((v, p))
     };
     let t0 = Instant::now();
-    let scen = directed_builder();
+    let scen = directed_builder(opts.tier == "thorough" && !opts.secondary);
     let (st, fail) = par_run(scen.len() as u64, opts.jobs, |i, st| {
         let t = &scen[i as usize];
         st.push_digest(t.digest());
